@@ -167,6 +167,9 @@ def gen_cases(tier, seed):
     blk = 10
     for lo in range(0, len(items), blk):
         cases.append(dict(kind="progs", items=items[lo:lo + blk], seed=seed))
+    # graphs that torch.vmap cannot differentiate: one-row chunks and one-row batches must still equal Grad row by row
+    for nout in (1, 2):
+        cases.append(dict(kind="novmap", nout=nout, seed=seed))
     return cases
 
 
@@ -595,10 +598,67 @@ def run_stackgrad(acc, prog, outs, seed):
         acc.outcomes.add(digest(["sg", desc, nm]))
 
 
+def run_novmap(acc, nout, seed):
+    """Jac over a graph containing a Function whose backward cannot be vmapped. 'Jac equals stacking Grad row by row' must hold
+    whenever every chunk has one row (chunk size 1, or a one-row batch with any chunk size): those are differentiated one at a
+    time. (Added after a seeded change that decided between vmap and a plain call once, from the total number of rows.)"""
+    import torch
+    from torchjd.autojac._transform import Grad, Gradients, Jac, Jacobians
+
+    from mc.seams import NoVmapIdentity
+
+    def build():
+        a = torch.tensor([0.7, -1.3, 2.1], dtype=torch.float64, requires_grad=True)
+        b = torch.tensor(1.5 + 0.1 * (seed % 5), dtype=torch.float64, requires_grad=True)
+        h = NoVmapIdentity.apply(a * b)
+        W = torch.tensor([[1.0, -2.0, 0.5], [0.0, 3.0, 1.0], [2.0, 1.0, -1.0], [-1.0, 0.5, 4.0]], dtype=torch.float64)
+        y = W @ h
+        outs = [y] if nout == 1 else [y[:1] * 1.0, y[1:] * 1.0]
+        return a, b, outs, W
+
+    a, b, outs, W = build()
+    Ja = (W * float(b)).numpy()          # d y / d a
+    Jb = (W @ a.detach()).numpy()        # d y / d b
+    cots = np.concatenate([np.eye(4), np.array([[0.5, -1.5, 2.0, 1.0]])])
+    split = (lambda c: [c[..., :4]]) if nout == 1 else (lambda c: [c[..., :1], c[..., 1:]])
+    T = lambda x: torch.tensor(np.array(x), dtype=torch.float64)  # noqa: E731
+    grad_rows = []
+    for ci, c in enumerate(cots):
+        what = f"Grad novmap nout={nout} cot#{ci}"
+        res = _call(acc, what, lambda: Grad(outs, [a, b], retain_graph=True)(Gradients({o: T(x) for o, x in zip(outs, split(c))})))
+        if res is None:
+            grad_rows.append(None)
+            continue
+        _check_dict(acc, what, res, Gradients, [(a, c @ Ja), (b, np.asarray(c @ Jb))], TOL64, "grad", 20.0)
+        grad_rows.append((_np(res[a]), _np(res[b])))
+    for m in (1, 2, 3, 5):
+        for ch in ((None, 1, 2, 7) if m == 1 else (1,)):
+            for s0 in range(len(cots)):
+                rows = [(s0 + j) % len(cots) for j in range(m)]
+                C = np.stack([cots[j] for j in rows])
+                what = f"Jac novmap nout={nout} m={m} chunk={ch} rows={rows}"
+                d = Jacobians({o: T(x) for o, x in zip(outs, split(C))})
+                res = _call(acc, what, lambda: Jac(outs, [b, a] if s0 % 2 else [a, b], ch, retain_graph=True)(d))
+                acc.count("novmap_jac")
+                if res is None:
+                    continue
+                ok = _check_dict(acc, what, res, Jacobians, [(a, C @ Ja), (b, C @ Jb)], TOL64, "jac", 20.0)
+                if ok:
+                    for k, j in enumerate(rows):
+                        if grad_rows[j] is not None:
+                            e = max(float(np.abs(_np(res[a])[k] - grad_rows[j][0]).max()), float(np.abs(_np(res[b])[k] - grad_rows[j][1]).max()))
+                            if not (e <= TOL64 * 20.0):
+                                acc.v("jac-row-differs-from-grad", f"{what}: row {k} differs from Grad of cotangent #{j} by {e:.3g}")
+                acc.nontrivial += 1
+                acc.outcomes.add(digest(["nv", nout, m, ch, rows]) if ok else "nv-bad")
+
+
 def run_case(case):
     acc = Acc()
     seed = case["seed"]
-    if case["kind"] == "layout":
+    if case["kind"] == "novmap":
+        run_novmap(acc, case["nout"], seed)
+    elif case["kind"] == "layout":
         for shapes in case["shapes"]:
             run_layout(acc, [tuple(s) for s in shapes], seed)
     else:
